@@ -91,6 +91,36 @@ func scaleBy(x []float64, e int) []float64 {
 	return y
 }
 
+// Weight scale classes: weights multiplied by 2^ew (2^100 ~ 1.3e30), applied
+// to the non-integer weight kinds.
+var weightExps = []int{0, 0, 0, 100, -100}
+
+func scalableKind(wk string) bool { return wk == wPos || wk == wMix || wk == wZeros }
+
+// degOf is the degree of the largest power of the data formed by a routine
+// whose admissible data exponent is maxExp (1000: log space, none).
+func degOf(maxExp int) int {
+	switch {
+	case maxExp >= 1000:
+		return 0
+	case maxExp >= 465:
+		return 2
+	default:
+		return 4
+	}
+}
+
+// fits reports whether weights scaled by 2^ew times data scaled by 2^e stay
+// representable through a routine of the given admissible data exponent.
+// Plain sums of w*x^deg legitimately overflow/underflow beyond that (the docs
+// promise no range robustness), so those combinations get no verdict.
+func fits(ew, e, maxExp int) bool {
+	if absInt(e) > maxExp {
+		return false
+	}
+	return ew == 0 || absInt(ew)+degOf(maxExp)*absInt(e) <= 950
+}
+
 func scaleClass(e int) string {
 	if e == 0 {
 		return "normal-scale"
